@@ -25,7 +25,8 @@ AUDIT_FILE = "LoguruModel/Audit/C13.lean"
 DRIVER = "C13"
 RULE = ("one case = (generated program, entry point, sys.tracebacklimit) logged through 8 handlers "
         "(backtrace x diagnose x colorize), entry points opt(exception=) / catch decorator / catch context manager / ONE "
-        "catch object reused over 2-5 decorator and context-manager uses (last use judged); programs are built from call/raise/from/implicit-context/from-None/"
+        "catch object reused over 2-5 decorator and context-manager uses (last use judged) / 2-3 stacked catch decorators "
+        "(inner, middle or outer catching) / decorated callables invoked by loguru (lazy argument, patcher, onerror); programs are built from call/raise/from/implicit-context/from-None/"
         "re-raise/notes/groups/groups-in-handlers/cycles/never-raised causes/SyntaxError/recursion/bad __str__/"
         "customised __eq__ __hash__ __len__ (unhashable dataclass, raising hash/eq, eq-always-True, value-equal "
         "instances meeting in one chain, falsy) "
@@ -332,6 +333,8 @@ class Sink:
 
     def __call__(self, message):
         sh = self.shared
+        if message.record["message"] != "M":
+            return              # an event of the surrounding machinery (lazy / patched / onerror entry points)
         if message.record["exception"] is None:
             sh["noexc"] = True
         elif sh.get("heap") is None:
@@ -440,7 +443,18 @@ def _raising():
 
 
 def entry_from_dec(entry):
-    return entry == "decorator" or (entry.startswith("shared:") and entry.endswith(":d"))
+    return entry == "decorator" or (entry.startswith("shared:") and entry.endswith(":d")) \
+        or entry.startswith("stacked:") or entry.startswith("invoked:")
+
+
+def indirect_entries(seed):
+    """decorator uses whose catching wrapper is NOT called directly by user code: 2-3 stacked catch decorators
+    (the inner, a middle or the outer one catches; the others filter on another exception type), and decorated
+    callables that loguru itself invokes (a lazy argument, a patcher, an onerror callback).  The one calling frame
+    the property asks for is then the first caller that is not loguru's own."""
+    r = core.Rng(seed ^ 0x57ACED)
+    k = r.choice([2, 2, 3])
+    return ["stacked:%d:%d" % (k, r.below(k)), "invoked:" + r.choice(["lazy", "patcher", "onerror"])]
 
 
 def shared_entries(seed):
@@ -482,6 +496,22 @@ def run_case(src, genfile, entry, limit):
                     logger.opt(exception=e).error("M")
             elif entry == "decorator":
                 logger.catch(message="M")(main)()
+            elif entry.startswith("stacked:"):
+                _s, k, target = entry.split(":")
+                fn = main
+                for j in range(int(k)):        # innermost decorator first
+                    fn = (logger.catch(message="M") if j == int(target)
+                          else logger.catch(MemoryError, message="other"))(fn)
+                fn()
+            elif entry.startswith("invoked:"):
+                how = entry.split(":")[1]
+                if how == "lazy":
+                    logger.opt(lazy=True).info("lazy {}", logger.catch(message="M")(main))
+                elif how == "patcher":
+                    logger.patch(logger.catch(message="M")(lambda record: main())).info("patched")
+                else:
+                    with logger.catch(message="outer", onerror=logger.catch(message="M")(lambda exc: main())):
+                        raise LookupError("outer error")
             elif entry.startswith("shared:"):
                 # ONE catch object used several times, as decorator and as context manager in any order; the
                 # property's clauses are about each use, so only the last (logged and judged) use matters
@@ -1081,13 +1111,13 @@ def run(ctx):
     probe_f12(ctx)
     run_corpus(ctx, lines, pending)
 
-    nprog = ctx.n(300, 400) * boost
+    nprog = ctx.n(350, 400) * boost
     std_lines, std_expect = [], []
     for i in range(nprog):
         seed = rng.next()
         src, features = gen_case(seed)
-        all_entries = ENTRIES + shared_entries(seed)
-        entries = [all_entries[i % 5]] if ctx.quick else all_entries
+        all_entries = ENTRIES + shared_entries(seed) + indirect_entries(seed)
+        entries = [all_entries[i % 7]] if ctx.quick else all_entries
         limits = [LIMITS[(i // 3) % 4]] if ctx.quick and i % 2 else ([None] if ctx.quick else LIMITS)
         for entry in entries:
             for limit in limits:
